@@ -233,42 +233,38 @@ def SymSt.next (s : SymSt) : Sym → SymSt
 
 /-! ### the parser's contract -/
 
-/-- `copy` reads `len` bytes at distance `dist+1` back, byte by byte (overlap allowed) -/
+/-! The window is kept REVERSED (`rb`: newest byte first), so "the byte at distance `d`" is `rb[d]?` and writing a byte is
+    a cons. -/
+
+/-- copy `len` bytes from distance `dist` (zero-based), byte by byte (overlap allowed) -/
 def lzCopy : Nat → Nat → List UInt8 → Option (List UInt8)
-  | 0, _, before => some before
-  | n + 1, dist, before =>
-    if h : dist < before.length then
-      lzCopy n dist (before ++ [before[before.length - 1 - dist]])
-    else none
+  | 0, _, rb => some rb
+  | n + 1, dist, rb =>
+    match rb[dist]? with
+    | some b => lzCopy n dist (b :: rb)
+    | none => none
 
-/-- Expand a symbol sequence from a history: the LZ77 semantics every LZMA decoder implements.
-    Returns history ++ produced data. `none` = a distance reaches before the start of the available history or the
-    dictionary, or a length is out of range. -/
+/-- Expand ONE symbol on the window (the LZ77 semantics every LZMA decoder implements), with the validity conditions of
+    the format: lengths 2..273 (short rep: 1), rep index < 4, distance inside the dictionary and inside the available
+    history. `none` = invalid. -/
+def applySym (dictSize : Nat) (rb : List UInt8) (s : SymSt) : Sym → Option (List UInt8)
+  | .lit b => some (b :: rb)
+  | .mtch dist len => if 2 ≤ len ∧ len ≤ MATCH_LEN_MAX ∧ dist < dictSize then lzCopy len dist rb else none
+  | .rep idx len => if 2 ≤ len ∧ len ≤ MATCH_LEN_MAX ∧ idx < REPS ∧ s.rep idx < dictSize then lzCopy len (s.rep idx) rb else none
+  | .shortrep => if s.rep0 < dictSize then lzCopy 1 s.rep0 rb else none
+
+/-- Expand a symbol sequence (state machine and rep registers advance by `SymSt.next`). -/
 def lzExpand (dictSize : Nat) : List Sym → SymSt → List UInt8 → Option (List UInt8)
-  | [], _, before => some before
-  | .lit b :: rest, s, before => lzExpand dictSize rest (s.next (.lit b)) (before ++ [b])
-  | .mtch dist len :: rest, s, before =>
-    if 2 ≤ len ∧ len ≤ MATCH_LEN_MAX ∧ dist < dictSize then
-      match lzCopy len dist before with
-      | none => none
-      | some b' => lzExpand dictSize rest (s.next (.mtch dist len)) b'
-    else none
-  | .rep idx len :: rest, s, before =>
-    if 2 ≤ len ∧ len ≤ MATCH_LEN_MAX ∧ idx < REPS ∧ s.rep idx < dictSize then
-      match lzCopy len (s.rep idx) before with
-      | none => none
-      | some b' => lzExpand dictSize rest (s.next (.rep idx len)) b'
-    else none
-  | .shortrep :: rest, s, before =>
-    if s.rep0 < dictSize then
-      match lzCopy 1 s.rep0 before with
-      | none => none
-      | some b' => lzExpand dictSize rest (s.next .shortrep) b'
-    else none
+  | [], _, rb => some rb
+  | sym :: rest, s, rb =>
+    match applySym dictSize rb s sym with
+    | none => none
+    | some rb' => lzExpand dictSize rest (s.next sym) rb'
 
-/-- The parser's contract: the symbols, expanded from `hist` with the initial rep registers `s`, give exactly `data`. -/
+/-- The parser's contract: the symbols, expanded from the history `hist` (preset dictionary, or nothing) with rep
+    registers `s`, give exactly `data`. -/
 def Describes (dictSize : Nat) (hist : List UInt8) (s : SymSt) (syms : List Sym) (data : List UInt8) : Prop :=
-  lzExpand dictSize syms s hist = some (hist ++ data)
+  lzExpand dictSize syms s hist.reverse = some (data.reverse ++ hist.reverse)
 
 /-! ### executable encoder state (driver; arrays are used linearly) -/
 
